@@ -5,7 +5,15 @@
 
 package reconciler
 
-import "time"
+import (
+	"fmt"
+	"slices"
+	"strings"
+	"time"
+
+	"github.com/cilium/statedb"
+	"github.com/cilium/statedb/index"
+)
 
 // Accessors for the verification harness in /verif (build tag "verif" only).
 
@@ -14,4 +22,78 @@ import "time"
 func VerifBackoffDuration(min, max time.Duration, attempt int) time.Duration {
 	e := exponentialBackoff{min: min, max: max}
 	return e.Duration(attempt)
+}
+
+// VerifRetries drives the retry queue (retries.go: the two container/heap
+// priority queues with their index bookkeeping, the items map, the wake-up
+// timer) directly, with uint64 keys as objects.
+type VerifRetries struct{ rq *retries }
+
+func VerifNewRetries(min, max time.Duration) *VerifRetries {
+	return &VerifRetries{newRetries(min, max, func(o any) index.Key { return index.Uint64(o.(uint64)) })}
+}
+
+func (v *VerifRetries) Add(key uint64, rev, origRev statedb.Revision, delete bool) {
+	v.rq.Add(key, rev, origRev, delete, nil)
+}
+
+func (v *VerifRetries) Pop() { v.rq.Pop() }
+
+func (v *VerifRetries) Clear(key uint64) { v.rq.Clear(key) }
+
+func (v *VerifRetries) LowWatermark() statedb.Revision { return v.rq.LowWatermark() }
+
+// Top returns the head of the retry-time queue.
+func (v *VerifRetries) Top() (key uint64, rev, origRev statedb.Revision, delete bool, retryAt time.Time, numRetries int, ok bool) {
+	item, ok := v.rq.Top()
+	if !ok {
+		return
+	}
+	return item.object.(uint64), item.rev, item.origRev, item.delete, item.retryAt, item.numRetries, true
+}
+
+// Woken reports whether the channel returned by Wait() is closed.
+func (v *VerifRetries) Woken() bool {
+	select {
+	case <-v.rq.Wait():
+		return true
+	default:
+		return false
+	}
+}
+
+// Dump prints the two heap arrays in array order and the items map sorted by
+// key: "q=[key:index:revIndex ...] r=[key:index:revIndex ...] items=[key:index:revIndex:numRetries ...]".
+func (v *VerifRetries) Dump() string {
+	var b strings.Builder
+	arr := func(name string, items []*retryItem) {
+		b.WriteString(name + "=[")
+		for i, it := range items {
+			if i > 0 {
+				b.WriteString(" ")
+			}
+			fmt.Fprintf(&b, "%d:%d:%d", it.object.(uint64), it.index, it.revIndex)
+		}
+		b.WriteString("] ")
+	}
+	arr("q", v.rq.queue.items)
+	arr("r", v.rq.revQueue.items)
+	keys := make([]uint64, 0, len(v.rq.items))
+	byKey := map[uint64]*retryItem{}
+	for _, it := range v.rq.items {
+		k := it.object.(uint64)
+		keys = append(keys, k)
+		byKey[k] = it
+	}
+	slices.Sort(keys)
+	b.WriteString("items=[")
+	for i, k := range keys {
+		if i > 0 {
+			b.WriteString(" ")
+		}
+		it := byKey[k]
+		fmt.Fprintf(&b, "%d:%d:%d:%d", k, it.index, it.revIndex, it.numRetries)
+	}
+	b.WriteString("]")
+	return b.String()
 }
